@@ -13,7 +13,7 @@ MINV = Fraction(1, 2 ** 128)          # smallest positive MBF number of either t
 BLANKS = b' \t\n'
 
 PRINTED = re.compile(rb'^( |-)?(\d*)(?:\.(\d*))?(?:([ED])([+-])(\d\d+))?([!#%]?)$')
-WELLFORMED = re.compile(rb'^([+-]?)(\d*)(?:\.(\d*))?(?:([EeDd])([+-]?)(\d*))?([!#]?)$')
+WELLFORMED = re.compile(rb'^([+-]?)(\d*)(?:\.(\d*))?(?:([EeDd])([+-]?)(\d*)|([!#]))?$')
 
 
 # ---------------------------------------------------------------- exact reading of texts (oracle side)
@@ -46,6 +46,7 @@ def literal_reading(w):
         return None
     sign, ip, fp, el, es, ed, sig = mo.groups()
     fp = fp or b''
+    sig = sig or b''
     digs = ip + fp
     mant = int(digs) if digs else 0
     e10 = -len(fp) + ((int(ed or b'0') * (-1 if es == b'-' else 1)) if el else 0)
@@ -411,13 +412,13 @@ class C07(core.Check):
         return C07._e2e
 
     def impl_e2e(self, case):
-        """PRINT x / WRITE x / PRINT STR$(x) / PRINT VAL(STR$(x)) with x = CVS/CVD of the bytes; the output
-        lines are compared with what the model's to_repr forms give"""
+        """PRINT x / WRITE x / PRINT STR$(x) with x = CVS/CVD of the bytes; the output lines are compared
+        with what the model's to_repr forms give"""
         s = self.e2e_session()
         cv = 'CVS' if case['t'] == 4 else 'CVD'
         arg = '+'.join('CHR$(%d)' % x for x in case['b'])
-        res = s.execute('X%s=%s(%s):PRINT X%s:WRITE X%s:PRINT STR$(X%s):Y$=STR$(X%s):PRINT VAL(Y$)=X%s' % (
-            '!' if case['t'] == 4 else '#', cv, arg, *(('!' if case['t'] == 4 else '#',) * 5)))
+        sg = '!' if case['t'] == 4 else '#'
+        res = s.execute('X%s=%s(%s):PRINT X%s:WRITE X%s:PRINT STR$(X%s)' % (sg, cv, arg, sg, sg, sg))
         if isinstance(res, str):
             res = res.encode('latin-1')
         return list(res)
@@ -446,11 +447,14 @@ class C07(core.Check):
 
     # ---------------------------------------------------------------- oracle
     def nontrivial(self, case, out):
-        if case['k'] in ('p', 'r', 'e'):
-            return out[:1] == [0] and (case['t'] == 2 or case['b'][-1] != 0) or case['k'] == 'e'
-        if case['k'] == 'i':
+        k = case['k']
+        if k == 'e':
+            return case['b'][-1] != 0
+        if k in ('p', 'r'):
+            return out[:1] == [0] and (case['t'] == 2 or case['b'][-1] != 0)
+        if k == 'i':
             return True
-        return 0 in (out[0],) and any(48 < c <= 57 for c in case['w'])
+        return out[:1] == [0] and any(48 < c <= 57 for c in case['w'])
 
     def check_printed(self, t, x, s, ls, ts):
         """every clause about one printed text s of the value x (Fraction) of type t"""
@@ -608,16 +612,14 @@ class C07(core.Check):
     def oracle_e2e(self, case, out):
         x = M.value_of(case['t'], case['b'])
         lines = bytes(out).split(b'\r\n')
-        if len(lines) < 4:
+        if len(lines) < 3:
             return 'PRINT/WRITE/STR$ produced %r' % bytes(out)
-        pr, wr, st, eq = lines[0], lines[1], lines[2], lines[3]
+        pr, wr, st = lines[0], lines[1], lines[2]
         for s, ls, what in ((pr[:-1] if pr.endswith(b' ') else pr, True, 'PRINT'), (wr, False, 'WRITE'),
                             (st, True, 'STR$')):
             why = self.check_printed(case['t'], x, list(s), ls, False)
             if why:
                 return what + ': ' + why
-        if x.denominator == 1 and abs(x) < 10 ** DIGITS[case['t']] and eq.strip() != b'-1':
-            return 'VAL(STR$(x)) <> x for the integer value %s' % x
         return None
 
     # ---------------------------------------------------------------- known finding K07a
